@@ -44,7 +44,7 @@ class Found:
         self.path, self.arr, self.setter = path, arr, setter
 
 
-def find_arrays(root_obj, name="obj", max_depth=6, skip_modules=("numpy", "pystencils", "pyfftw", "numba", "sympy", "logging", "z3")):
+def find_arrays(root_obj, name="obj", max_depth=6, skip_modules=("numpy", "pystencils", "pyfftw", "numba", "sympy", "logging", "z3", "elastica")):
     found = []
     seen = set()
 
